@@ -78,17 +78,17 @@ def cases(draw):
     mesh = draw(gen.lattice_mesh(fixed=(2, 2)))
     kind = ['general', 'trapezoidal', 'rigid', 'general', 'trapezoidal'][draw(st.integers(0, 4))]
     if kind == 'general':
-        gamma = draw(st.floats(0.5, 1.0))
-        beta = draw(st.floats(gamma / 2, 1.0))
+        gamma = draw(gen.floats(0.5, 1.0))
+        beta = draw(gen.floats(gamma / 2, 1.0))
     else:
         gamma, beta = 0.5, 0.25
     nsteps = draw(st.integers(1, 8))
     dts = [draw(gen.logfloat(-3, 0)) for _ in range(nsteps)]
     return {'model': name, 'order': order, 'props': pr, 'mesh': mesh, 'kind': kind, 'gamma': gamma, 'beta': beta, 'dts': dts,
-            'rho': draw(gen.logfloat(-2, 2)), 'ucoef': draw(st.lists(st.floats(-1, 1), min_size=12, max_size=12)),
-            'vcoef': draw(st.lists(st.floats(-1, 1), min_size=12, max_size=12)), 'acoef': draw(st.lists(st.floats(-1, 1), min_size=12, max_size=12)),
+            'rho': draw(gen.logfloat(-2, 2)), 'ucoef': draw(st.lists(gen.floats(-1, 1), min_size=12, max_size=12)),
+            'vcoef': draw(st.lists(gen.floats(-1, 1), min_size=12, max_size=12)), 'acoef': draw(st.lists(gen.floats(-1, 1), min_size=12, max_size=12)),
             'amp': draw(gen.logfloat(-4, -1)), 'consistentA': draw(st.booleans()), 'bc': draw(st.booleans()),
-            'bcseed': draw(st.integers(0, 10 ** 6)), 'vrigid': draw(st.lists(st.floats(-2, 2), min_size=2, max_size=2))}
+            'bcseed': draw(st.integers(0, 10 ** 6)), 'vrigid': draw(st.lists(gen.floats(-2, 2), min_size=2, max_size=2))}
 
 
 def check(case):
